@@ -146,6 +146,15 @@ func init() {
 				if !yield(C13Case{Part: "validate", Key: k}) {
 					return
 				}
+				// the same with an override block that sets nothing
+				if !yield(C13Case{Part: "validate", Key: k, Empty: true}) {
+					return
+				}
+			}
+			for _, k := range Formats {
+				if !yield(C13Case{Part: "umask", Key: k}) {
+					return
+				}
 			}
 			for _, k := range Formats {
 				if !yield(C13Case{Part: "contents", Key: k}) {
@@ -346,6 +355,9 @@ func checkC13(env *engine.Env, ci any) engine.Outcome {
 	case "validate":
 		doc := deepCopyMap(base)
 		doc["overrides"] = map[string]any{c.Key: map[string]any{"depends": []any{"x"}}}
+		if c.Empty {
+			doc["overrides"] = map[string]any{c.Key: map[string]any{}}
+		}
 		text := fixture.Doc(doc).YAML()
 		cfg, err := parseYAML(text, nil)
 		if err != nil {
@@ -359,13 +371,52 @@ func checkC13(env *engine.Env, ci any) engine.Outcome {
 				registered = true
 			}
 		}
-		out.Key = fmt.Sprintf("validate:%s:%v", c.Key, verr != nil)
+		out.Key = fmt.Sprintf("validate:%s:%v:%v", c.Key, c.Empty, verr != nil)
 		if registered && verr != nil {
 			viol("merge:validate-rejects-registered:"+c.Key, "Validate rejects an override block for the registered format %q: %v", c.Key, verr)
 		}
 		if !registered && verr == nil {
 			viol("merge:validate-accepts-unregistered", "Validate accepts an override block for %q, which has no registered packager", c.Key)
 		}
+	case "umask":
+		// an umask override applies to its own format only; all five packages are built in ONE process
+		list := []model.Entry{{Src: "share/ww.txt", Dst: "/opt/ww.txt"}, {Src: "bin/app", Dst: "/usr/bin/app"}, {Src: "tree", Dst: "/opt/tree", Type: "tree"}}
+		d := Setting{Name: "default", Umask: 0o022}.doc(list, t.Root)
+		d["overrides"] = map[string]any{c.Key: map[string]any{"umask": 0o077}}
+		text := d.YAML()
+		order := append([]string{c.Key}, Formats...)
+		for _, f := range order {
+			out.Transitions++
+			data, err := buildYAML(text, f)
+			if err != nil {
+				viol("merge:umask-build-error:"+f, "packaging failed: %v", err)
+				continue
+			}
+			pkg, err := pkgread.Decode(f, data, env.Tools)
+			if err != nil {
+				viol("merge:undecodable:"+f, "%v", err)
+				continue
+			}
+			um := int64(0o022)
+			if f == c.Key {
+				um = 0o077
+			}
+			for _, e := range pkg.Entries {
+				n := t.Get(map[string]string{"/opt/ww.txt": "share/ww.txt", "/usr/bin/app": "bin/app", "/opt/tree/x": "tree/x", "/opt/tree/sub/y": "tree/sub/y"}[e.Path])
+				if n == nil || e.Kind != "file" {
+					continue
+				}
+				want := int64(model.UnixMode(n.Mode)) &^ um
+				if e.Mode != want {
+					role := "other-format"
+					if f == c.Key {
+						role = "own-format"
+					}
+					viol("merge:umask:"+role, "umask override 077 for %s, base umask 022: the %s package ships %s with mode %#o, expected %#o", c.Key, f, e.Path, e.Mode, want)
+				}
+			}
+		}
+		out.Key = "umask:" + c.Key
 	case "contents":
 		var list []model.Entry
 		for _, f := range append([]string{""}, Formats...) {
